@@ -32,6 +32,8 @@ def cases(seed, tier):
     ntis = 60 if tier == "quick" else 500
     out = [{"fam": "poly", "seed": [seed, 20, i], "count": 60} for i in range(npoly)]
     out += [{"fam": "tissue", "seed": [seed, 20, 10 ** 6 + i]} for i in range(ntis)]
+    if tier != "quick":
+        out.append({"fam": "suite", "seed": [seed, 0, 0]})
     return out
 
 
@@ -289,7 +291,31 @@ def _tissue_case(case, mon):
     return [["tissue", len(r.cells), len(at.J), sorted(set(r.ks.values())), len(r.flipset)]], None
 
 
+
+def _suite_case(prop_id):
+    """the repository's own test-suite as an extra workload, run under this property's monitors (shipped fixtures)"""
+    from fv import suite
+    data, tail = suite.run(prop_id)
+    if data is None or data.get("exitstatus") not in (0, 1):
+        return {"status": "inconclusive", "reason": "suite-did-not-run", "trace": tail}
+    counters = {"suite:" + k: v for k, v in data["evals"].items()}
+    counters["suite:runs"] = 1
+    fails = list(data["fails"])
+    if data.get("unraisable"):
+        fails.append({"mech": "unraisable", "clause": "no destructor raises", "detail": {"events": data["unraisable"]}})
+    if data.get("monitor_errors"):
+        return {"status": "inconclusive", "reason": "monitor-error", "trace": data["monitor_errors"][-1], "counters": counters}
+    if fails:
+        return {"status": "violated", "findings": fails, "counters": counters, "sigs": [["suite"]]}
+    if not data["evals"]:
+        return {"status": "inconclusive", "reason": "suite-reached-no-monitor", "counters": counters}
+    return {"status": "held", "sigs": [["suite", sum(data["evals"].values())]], "sig": ["suite"], "counters": counters,
+            "observed": {"monitor_evaluations_in_suite": data["evals"]}}
+
+
 def run_case(case):
+    if case.get("fam") == "suite":
+        return _suite_case(ID)
     mon = _install()
     mon.reset()
     if case["fam"] == "poly":
